@@ -32,6 +32,9 @@ const (
 	FaultTrunc   = "trunc"   // send the first half of downlink message K
 	FaultOther   = "other"   // send a decodable NGAP message of a type the emulator never expects (Error Indication)
 	FaultCloseUL = "closeul" // close the association right after receiving uplink message K, answering nothing
+	// FaultSilent: from downlink message K on the peer neither answers nor closes. This is OUTSIDE the property's fault
+	// model; it shows what the exclusion means: the emulator has no read timeout and waits until it is killed.
+	FaultSilent = "silent"
 )
 
 type Fault struct {
@@ -52,7 +55,7 @@ func ParseFault(s string) (Fault, error) {
 		return Fault{}, fmt.Errorf("fault index %q", s[:i])
 	}
 	switch s[i+1:] {
-	case FaultClose, FaultGarbage, FaultTrunc, FaultOther, FaultCloseUL:
+	case FaultClose, FaultGarbage, FaultTrunc, FaultOther, FaultCloseUL, FaultSilent:
 		return Fault{Kind: s[i+1:], K: k}, nil
 	}
 	return Fault{}, fmt.Errorf("fault kind %q", s[i+1:])
@@ -337,6 +340,7 @@ type runner struct {
 	ulIndex int
 	faulted bool
 	closed  bool
+	silent  bool
 }
 
 func (r *runner) now() int64 { return time.Since(r.t0).Milliseconds() }
@@ -482,6 +486,9 @@ func kgnb(kamf []byte, ulCount uint32) []byte {
 // send transmits one downlink message, applying the fault if its index is the faulted one.
 // It returns false when the association is gone.
 func (r *runner) send(d dlMsg) bool {
+	if r.silent {
+		return true
+	}
 	f := r.o.Fault
 	out := d.bytes
 	m := Msg{Dir: "dl", Index: r.dlIndex, Ngap: d.ngap, Nas: d.nas, UE: d.ue}
@@ -490,6 +497,11 @@ func (r *runner) send(d dlMsg) bool {
 		r.faulted = true
 		r.t.FaultAtMs = r.now()
 		switch f.Kind {
+		case FaultSilent:
+			m.AtMs, m.Hex, m.Ngap, m.Nas = r.now(), "", "(silent)", ""
+			r.t.Messages = append(r.t.Messages, m)
+			r.silent = true
+			return true
 		case FaultClose:
 			m.AtMs, m.Hex, m.Ngap, m.Nas = r.now(), "", "(closed)", ""
 			r.t.Messages = append(r.t.Messages, m)
@@ -793,9 +805,10 @@ func (t *Transcript) Canonical() string {
 	}
 	tests := strconv.Itoa(t.Tests)
 	if t.Fault.Kind == FaultCloseUL {
-		// how many test headers are printed before the program notices the close depends on whether its next write
-		// (10 ms later inside ReleasePDU) races the peer's close; not compared
+		// which ManageError text and how many test headers are printed before the program notices the close depends on
+		// whether its next write (immediately, or 10 ms later inside ReleasePDU) beats the peer's close; not compared
 		tests = "*"
+		errText = "*"
 	}
 	return fmt.Sprintf("exit=%s %s banner=%d err=%s tests=%s dl=%d ul=%d after_fault_ul=%d seq=%s",
 		ex, bucket, b2i(t.Banner), errText, tests, t.DL, t.UL, t.AfterFaultUL, s)
